@@ -199,8 +199,18 @@ def _execute(zy, sc: dict, W: World) -> dict:
     base = zy.call("vsim.ops:api_call", {"env": _env(W, sc, "tap-base.jsonl"), "root": root, "method": "lint_directory",
                                          "dir": root, "steps_cap": STEP_CAP_HEAVY}, timeout=OP_TIMEOUT, exit="_exit")
     if not base["ok"]:
-        return {"failures": [], "stats": stats, "H": digest(sc), "C": "", "scenario": sc,
-                "harness": f"baseline failed: {base.get('kind')} {base.get('exc_type')} {base.get('exc')}"}
+        # the linter fails on the *healthy* project already: a violation in its own right (no offender involved)
+        btap = read_tap(str(W.root / "tap-base.jsonl"))
+        if base.get("kind") == "timeout":
+            fl = [_fail("wall", rule=_hang_site(base.get("stack")), lang="any", fault="any", op="api-baseline")]
+        elif base.get("exc_type") == "StepCapExceeded":
+            fl = [_fail("steps", lang="healthy", fault="none", cap=STEP_CAP_HEAVY)]
+        elif base.get("kind") == "exception":
+            fl = _abort_failures(btap, {}, "api-baseline") or [_fail("raised", rule="api-baseline", exc=base.get("exc_type"), lang="healthy",
+                                                                     fault="none", msg=base.get("exc"), tb=base.get("tb"))]
+        else:
+            fl = [_fail("crash", rule="api-baseline", exc=f"status={base.get('status')}", lang="healthy", fault="none")]
+        return {"failures": _uniq(fl + _tap_failures(btap, {}, "baseline")), "stats": stats, "H": digest(sc), "C": "", "scenario": sc, "harness": None}
     base_tap = read_tap(str(W.root / "tap-base.jsonl"))
     # ---- plant offenders
     offs = {}
